@@ -20,6 +20,15 @@ func init() {
 			jw = append(jw, "AddJob:"+c)
 		}
 		o.p("def jobWrites : List String := %s\n", leanList(jw))
+		// the retry delay is rescaled (seconds -> ns) by verification and scaled back for the stored form
+		var sc []string
+		sc = append(sc, assignRHS(mustFunc("internal/jobs/error_handler.go", "", "verifyErrorHandlers"), "eh.RetryDelay")...)
+		if sf := findFunc("internal/jobs/scheduler.go", "", "storedForm"); sf != nil {
+			sc = append(sc, assignRHS(sf, "c.RetryDelay")...)
+		} else {
+			sc = append(sc, "no-storedForm")
+		}
+		o.p("def retryDelayScaling : List String := %s\n", leanList(sc))
 		st := mustFunc("internal/jobs/scheduler.go", "Scheduler", "Start")
 		o.p("def jobLoadsOnStart : List String := %s\n", leanList(callExprs(st.Body, "loadConfigurations")))
 		as := mustFunc("internal/server/store.go", "NamespaceManager", "AssertPrefixMappingForExpansion")
